@@ -117,7 +117,7 @@ func (c conc) qname(n []string) string {
 	return s
 }
 
-var typeOf = map[string]uint16{"A": dns.TypeA, "NS": dns.TypeNS, "DS": dns.TypeDS, "SOA": dns.TypeSOA,
+var typeOf = map[string]uint16{"A": dns.TypeA, "TXT": dns.TypeTXT, "NS": dns.TypeNS, "DS": dns.TypeDS, "SOA": dns.TypeSOA,
 	"CNAME": dns.TypeCNAME, "DNAME": dns.TypeDNAME}
 
 func has(ts []string, t string) bool {
@@ -175,6 +175,8 @@ func newAuthZone(zi *zoneIn, c conc, nsec3 bool, par int) *authkit.Zone {
 			switch t {
 			case "A":
 				z.AddRR(&dns.A{Hdr: hdr(name, dns.TypeA), A: []byte{192, 0, 2, 1}})
+			case "TXT":
+				z.AddRR(&dns.TXT{Hdr: hdr(name, dns.TypeTXT), Txt: []string{"c02"}})
 			case "CNAME":
 				z.AddRR(&dns.CNAME{Hdr: hdr(name, dns.TypeCNAME), Target: "target.elsewhere.invalid."})
 			case "DNAME":
